@@ -3,6 +3,8 @@ import re
 import absint
 from engines import kind_elements, is_tracing
 from engines import check_required_steps
+from expr import Extract, S
+from expr import div as ediv, show as eshow, equal as expr_equal
 from engines import check_complete_iteration, for_loops, check_every_element, assignments_to, source_local, loop_skip_path
 from prov import Prov, params_of, field_names
 
@@ -184,6 +186,33 @@ def run(ck, prog, ctx):
                         int_ops.append(st)
             if int_ops:
                 ck.violation("ROLE", nm + "/record/enrichment-integer", "%s: the fold enrichment is computed with an INTEGER division (line %s): the quotient is truncated before the conversion to float" % (nm, int_ops[0].line), where=b.where(int_ops[0].line))
+            # exact formula: (k/n) / (K/N) as a rational function of the four role symbols
+            def fleaf(ex, body, kind, obj, _pv=pv, _b=b):
+                if kind == "call":
+                    tt = obj
+                    tgt = prog.bodies.get(tt.callee.res) if tt.callee.res else None
+                    conv = (tt.callee.method in absint.CONVERSIONS or is_conversion_fn(prog, tgt)) and len(tt.args) == 1
+                    if conv and not (tgt is not None and tgt.name == "len"):
+                        return ex.operand(body, tt.args[0], 0, getattr(ex, "_at", None))
+                    if tt.dest is not None and tt.dest.is_local():
+                        lb = labels(_pv.of_local(body, tt.dest.local))
+                        if len(lb) == 1:
+                            return S(next(iter(lb)))
+                    return None
+                if kind == "place":
+                    lb = labels(_pv.of_place(body, obj))
+                    return S(next(iter(lb))) if len(lb) == 1 else None
+                if kind == "phi":
+                    lb = labels(_pv.of_local(body, obj))
+                    return S(next(iter(lb))) if len(lb) == 1 else None
+                return None
+            fe = Extract(prog, pv, fleaf).operand(b, t.args[3], 0, (bi, len(b.blocks[bi].stmts)))
+            fwant = ediv(ediv(S("k"), S("n")), ediv(S("K"), S("N")))
+            feq = expr_equal(fe, fwant)
+            if feq is None:
+                ck.undecided("ROLE", nm + "/record/enrichment-formula", "%s: fold-enrichment expression %s has leaves that are not recognised" % (nm, eshow(fe)), where=b.where(t.line))
+            else:
+                ck.ob("ROLE", nm + "/record/enrichment-formula", feq, "%s: fold enrichment %s %s (k/n)/(K/N)" % (nm, eshow(fe), "=" if feq else "is NOT algebraically equal to"), where=b.where(t.line))
             ck.ob("ROLE", nm + "/record/enrichment", d == want, "%s: fold enrichment has dimension %s (expected k*N/(n*K))" % (nm, d if d is not None else "unknown (non-float or unrecognised arithmetic)"), where=b.where(t.line))
     ck.floor("ROLE", "inner enrichment functions", n_inner, 2)
 
@@ -419,3 +448,27 @@ def run(ck, prog, ctx):
                     at = pvn.of_operand(fb, t.args[0])
                     ok = any(a[0] == "op" and a[1] == "Add" for a in at) and any(a[0] == "const" and a[2] in ("1f64",) for a in at)
                     ck.ob("TABLE", "ln_factorial/fallback", ok, "ln_factorial falls back to ln_gamma(x %s)" % ("+ 1" if ok else "without + 1"), where=fb.where(t.line))
+    # the factorial table holds finite values only: n! <= f64::MAX  <=>  n <= 170.  One entry more is +inf, and ln_factorial chooses
+    # between table and ln_gamma by the table's length alone.
+    import math
+    import sys as _sys
+    mf = prog.body("stats::hypergeom::statrs::MAX_FACTORIAL")
+    fc = prog.body("stats::hypergeom::statrs::FCACHE")
+    if mf is None or fc is None:
+        ck.undecided("TABLE", "factorial-table/finite", "constants MAX_FACTORIAL / FCACHE not found (private items)")
+    else:
+        vals = [st.rv["op"].int_value() for _, st in mf.stmts() if st.k == "assign" and st.place.is_local() and st.place.local == 0 and st.rv["k"] == "use" and st.rv["op"].kind == "const"]
+        lens = [int(st.rv["n"]) for _, st in fc.stmts() if st.k == "assign" and st.rv["k"] == "repeat" and str(st.rv.get("n", "")).isdigit()]
+        if len(vals) != 1 or vals[0] is None or len(lens) != 1:
+            ck.undecided("TABLE", "factorial-table/finite", "MAX_FACTORIAL is not a literal / the table is not a fixed-size array", where=mf.where())
+        else:
+            n = lens[0] - 1  # largest index of the table
+            try:
+                finite = float(math.factorial(n)) <= _sys.float_info.max
+            except OverflowError:
+                finite = False
+            ck.ob("TABLE", "factorial-table/finite", finite, "the factorial table has %d entries (0! ... %d!): %s" % (lens[0], n, "all finite in f64" if finite else "%d! exceeds f64::MAX, so the last entry is +inf and ln_factorial(%d) = inf: p-values with a factorial argument of exactly %d become 0, inf or NaN" % (n, n, n)), where=fc.where())
+            ck.ob("TABLE", "factorial-table/length", lens[0] == vals[0] + 1, "the table has MAX_FACTORIAL + 1 = %d entries (found %d)" % (vals[0] + 1, lens[0]), where=fc.where())
+            # the recurrence fills entry i with entry[i-1] * i
+            muls = [st for _, st in fc.stmts() if st.k == "assign" and st.rv["k"] == "bin" and st.rv["op"].startswith("Mul")]
+            ck.ob("TABLE", "factorial-table/recurrence", len(muls) == 1, "the table is filled by one multiplicative recurrence (%d multiplication site(s))" % len(muls), where=fc.where())
